@@ -1,5 +1,6 @@
 import Req.Driver.Proto
 import Req.Client.HeaderSort
+import Req.Client.HeaderSortSpec
 import Req.H2.Fields
 import Req.Driver.WireUtil
 import Req.H2.HeaderBlock
@@ -18,6 +19,23 @@ def laneSort : List String → String
       let out := Req.HeaderSort.sortKeyValues kvs os
       encodeList (out.map fun kv => kv.key) ++ " " ++
         encodeList (out.map fun kv => kv.values.headD [])
+    | _, _ => "bad-op"
+  | _ => "bad-op"
+
+
+/-- `c16listed <keys> <order>` → the SPECIFICATION's answer (HeaderSortSpec): the listed keys stably
+sorted by the position of the last list entry naming them (+ the input-position tag of each), then
+the duplicate-free form of the order list (`dedupLast`), then the listed keys under that form. -/
+def laneListed : List String → String
+  | [keys, order] =>
+    match decodeList keys, decodeList order with
+    | some ks, some os =>
+      let kvs := ks.zipIdx.map fun (k, i) => (⟨k, [ofStr (toString i)]⟩ : Req.HeaderSort.KV)
+      let out := Req.HeaderSort.listedSorted kvs os
+      let dd := Req.HeaderSort.dedupLast os
+      let out2 := Req.HeaderSort.listedSorted kvs dd
+      encodeList (out.map fun kv => kv.key) ++ " " ++ encodeList (out.map fun kv => kv.values.headD []) ++ " " ++
+        encodeList dd ++ " " ++ encodeList (out2.map fun kv => kv.values.headD [])
     | _, _ => "bad-op"
   | _ => "bad-op"
 
@@ -215,6 +233,7 @@ def laneValues : List String → String
 def lanes : List (String × (List String → String)) := [
   ("c16values", laneValues),
   ("c16rewrite", laneRewrite),
+  ("c16listed", laneListed),
   ("c16hframes", laneHFrames),
   ("c16resend", laneResend),
   ("sort", laneSort),
